@@ -165,6 +165,58 @@ pub fn run(ctx: &Ctx) {
     }
     ctx.enumerate("eight_levels", eight.len() as u64, false, |i| eight[i as usize].clone(), |c| check_sign_verifies(c, c.counter as u8));
 
+    // seed objects built through Seed::from([u8; 32]) (bytes beyond n are not part of the seed)
+    let mut arr: Vec<SweepCase> = Vec::new();
+    for h in ALL_HASHES {
+        for (k, s) in [vec![(8u32, 2u32)], vec![(4, 2), (8, 2)], vec![(4, 5)]].iter().enumerate() {
+            arr.push(SweepCase { hash: h, levels: s.clone(), counter: k as u64 });
+        }
+    }
+    ctx.enumerate("seed_from_array", arr.len() as u64, false, |i| arr[i as usize].clone(), |c: &SweepCase| {
+        let n = c.hash.n();
+        let seed = gen::expand(0x5eed ^ c.counter, n);
+        let (sk, pk) = match libapi::keygen_seed_from_array(c.hash, &c.levels, &seed, 0xc3) {
+            Out::Ok(v) => v,
+            o => return fail(format!("keygen-{}", o.kind()), format!("{:?}", o.panic_msg())),
+        };
+        let blob = with_counter(&sk, c.counter);
+        let sig = match libapi::sign(c.hash, b"seed from array", &blob, Cb::Accept, None).0 {
+            Out::Ok(s) => s,
+            o => return fail(sign_failure_key(c.hash, &c.levels, o.kind()), format!("{:?}", o.panic_msg())),
+        };
+        for (i, r) in libapi::verify_all(c.hash, b"seed from array", &sig, &pk).iter().enumerate() {
+            if !r.is_ok() {
+                return fail(format!("verify-{} entry={}", r.kind(), i), format!("signature of a key generated from Seed::from([u8; 32]) does not verify under the public key of the same keygen call ({} {})", c.hash.name(), levels_str(&c.levels)));
+            }
+        }
+        pass(format!("seed-from-array|{}", c.hash.name()), true)
+    });
+
+    // a tall root tree with an aux buffer large enough to cache levels bigger than 64 KiB
+    let tall: Vec<SweepCase> = vec![
+        SweepCase { hash: HashId::Sha256_128, levels: vec![(2, 15)], counter: 20_000 },
+        SweepCase { hash: HashId::Shake256_128, levels: vec![(2, 15), (8, 2)], counter: 4 * 30_001 + 1 },
+    ];
+    ctx.enumerate("tall_root_with_aux", tall.len() as u64, false, |i| tall[i as usize].clone(), |c: &SweepCase| {
+        let n = c.hash.n();
+        let seed = gen::expand(0x7a11, n);
+        let mut a = AuxBuf::new(vec![0u8; 4 + n + (n << 15) + (n << 13) + (n << 11) + 4096]);
+        let (sk, pk) = match libapi::keygen(c.hash, &c.levels, &seed, Some(&mut a)) {
+            Out::Ok(v) => v,
+            o => return fail(format!("keygen-{}", o.kind()), format!("{:?}", o.panic_msg())),
+        };
+        let mut aux = AuxBuf::new(a.used().to_vec());
+        let blob = with_counter(&sk, c.counter);
+        let sig = match libapi::sign(c.hash, b"tall root", &blob, Cb::Accept, Some(&mut aux)).0 {
+            Out::Ok(s) => s,
+            o => return fail(sign_failure_key(c.hash, &c.levels, o.kind()), format!("{:?}", o.panic_msg())),
+        };
+        if !libapi::verify(c.hash, libapi::VerifyEntry::Function, b"tall root", &sig, &pk).is_ok() {
+            return fail("verify-err tall-root-aux", format!("signature made with a {}-byte aux buffer of an H15 root tree does not verify ({} counter {})", aux.len, levels_str(&c.levels), c.counter));
+        }
+        pass(format!("tall-root-aux|{}", c.hash.name()), true)
+    });
+
     // complete lifetimes of small shapes
     let shapes = small_shapes(!ctx.quick());
     let sweep_hashes: Vec<HashId> = if ctx.quick() { vec![HashId::Sha256_192, HashId::Shake256_256] } else { ALL_HASHES.to_vec() };
